@@ -476,7 +476,7 @@ def token_mass_guess(tok):
 
 
 ARCHETYPES = ["homo", "random", "block", "alternating", "stepgrowth", "star", "graft", "hyper", "endinit2", "prefix_suffix", "connector",
-              "multibond", "dollar_homo", "listweights", "leftlist", "mixedorder"]
+              "multibond", "dollar_homo", "listweights", "leftlist", "mixedorder", "multikind"]
 
 
 def rand_molecule(rnd, archetype=None, small=True, families=None, palette=None, units=(1, 8)):
@@ -580,6 +580,13 @@ def rand_molecule(rnd, archetype=None, small=True, families=None, palette=None, 
         ends = [_end(rnd, DescT("<", 1)), _end(rnd, DescT(">", 1)), _end(rnd, DescT(">", 2)), _end(rnd, DescT("<", 2))]
         st = StochT(None, [bb, bb2, sc], ends, None, dist_for([bb, bb2, sc]), lay())
         return MolT([st], None, a)
+    if a == "multikind":
+        # a non-empty right terminal while descriptors of BOTH directions are open at every finalisation: one fitting descriptor is
+        # reserved for the terminal, the others (also those of the other direction) are capped
+        unit = make_token(rnd, [D("<", _w(rnd, 0.3)), D("<", _w(rnd, 0.3)), D(">", _w(rnd, 0.3))], n_atoms=rnd.randint(2, 5), palette=pal)
+        ends = [_end(rnd, D(">"), palette=pal), _end(rnd, D("<"), palette=pal)]
+        st = StochT(DescT(">", did), [unit], ends, DescT(">", did), dist_for([unit]), lay())
+        return MolT([_plain(rnd, palette=pal), st, _plain(rnd, palette=pal)], None, a)
     if a == "leftlist":
         # the left terminal carries a transition list (sum != 1): the prefix's open descriptor takes it over and the first partner is drawn
         # by the list; two units A(<,>) B(<,>) : slots A.< A.> B.< B.>
